@@ -269,6 +269,14 @@ func genProgram(r *common.Rng, n, nm int, ctx *common.Ctx) []form {
 				if r.Chance(50) {
 					ix = len(cand) - 1 - r.Intn((len(cand)+1)/2)
 				}
+				// siblings: the same first component as the flavor before (two flavors built on one base)
+				if j == 0 && n > 5 && len(prog) > 0 && len(prog[len(prog)-1].Comps) > 0 && r.Chance(45) {
+					for x, c := range cand {
+						if c == prog[len(prog)-1].Comps[0] {
+							ix = x
+						}
+					}
+				}
 				c := cand[ix]
 				cand = append(cand[:ix], cand[ix+1:]...)
 				f.Comps = append(f.Comps, c)
@@ -906,7 +914,29 @@ func (rn *runner) runHistory(hist []form, nflav int) (string, caseDesc, string) 
 	for i := range forms {
 		f := &forms[i]
 		f.Lisp = f.lisp(name)
+		// a defflavor builds the tables of the NEW flavor from those of its components: it must not touch the
+		// table of any flavor that exists already (needs no model: the tables before and after are compared)
+		var before map[int]string
+		if f.Kind == "flavor" {
+			before = rn.tableSigs(name, nflav)
+		}
 		o := common.EvalTimeout(rn.scope, f.Lisp, 3*time.Second)
+		if before != nil {
+			after := rn.tableSigs(name, nflav)
+			for g, sig := range before {
+				if after[g] != sig {
+					var upto []string
+					for j := 0; j <= i; j++ {
+						if forms[j].Lisp == "" {
+							forms[j].Lisp = forms[j].lisp(name)
+						}
+						upto = append(upto, forms[j].Lisp)
+					}
+					rn.ctx.Violate("a defflavor form changed the method table of a flavor defined earlier ("+name(g)+")",
+						map[string]any{"forms": upto, "changed_flavor": name(g)}, after[g], sig)
+				}
+			}
+		}
 		oc := "Ok"
 		switch {
 		case o.Err == "":
@@ -950,6 +980,120 @@ func (rn *runner) runHistory(hist []form, nflav int) (string, caseDesc, string) 
 		strings.Join(gobs, ";\n       "))
 	canon := strings.ReplaceAll(strings.Join(gobs, "\n"), fmt.Sprintf("k%df", rn.caseNo), "kf")
 	return term, caseDesc{Forms: forms, Flavors: obs}, canon
+}
+
+// tableSigs: for every flavor of the case that exists, its method tables as Simplify shows them (message, and per
+// combination the flavor it is from and which daemons it holds)
+func (rn *runner) tableSigs(name func(int) string, nflav int) map[int]string {
+	out := map[int]string{}
+	for g := 1; g <= nflav; g++ {
+		fl := flavors.Find(name(g))
+		if fl == nil {
+			continue
+		}
+		simple, _ := fl.Simplify().(map[string]any)
+		var items []string
+		if ml, ok := simple["methods"].([]any); ok {
+			for _, me := range ml {
+				mm, _ := me.(map[string]any)
+				item := fmt.Sprint(mm["name"]) + "="
+				cl, _ := mm["combinations"].([]any)
+				for _, ce := range cl {
+					cm, _ := ce.(map[string]any)
+					item += fmt.Sprint(cm["from"]) + ":"
+					for _, k := range []string{"whopper", "before", "primary", "after"} {
+						if v, _ := cm[k].(bool); v {
+							item += k[:1]
+						}
+					}
+					item += ","
+				}
+				items = append(items, item)
+			}
+		}
+		sort.Strings(items)
+		out[g] = strings.Join(items, " ")
+	}
+	return out
+}
+
+// siblingPrograms: the systematic block "several flavors built on one shared base".  nb mixins, each with a :before
+// daemon for :go, are combined by a base flavor; nt flavors are then built on (base own_t), own_t having a :before daemon
+// and the primary for :go.  The base's combination list is built by inheritFlavor's appends (nb = 3, 5, 6, 7 leave spare
+// capacity in its backing array), or gets an entry in front through defmethod (variant 2); the tops must each get a list
+// of their own.  Variants: 0 every method before the flavor that inherits it; 1 the methods of the own flavors after the
+// tops exist (insertMethod); 2 the base has a daemon of its own; 3 the base is the SECOND component.  Each program is run
+// in two orders of the tops (and their own flavors), which must leave the same flavors behind.
+type siblingProgram struct {
+	forms [][]form
+	n     int
+	label string
+}
+
+func siblingPrograms() []siblingProgram {
+	var out []siblingProgram
+	for nb := 1; nb <= 7; nb++ {
+		for _, nt := range []int{2, 3} {
+			for variant := 0; variant < 4; variant++ {
+				if nt == 3 && variant == 3 {
+					continue
+				}
+				id := 0
+				meth := func(f int, daemon string) form {
+					id++
+					return form{Kind: "method", F: f, Msg: ":go", Daemon: daemon, ID: id}
+				}
+				var pre []form
+				var mixins []int
+				for m := 1; m <= nb; m++ {
+					pre = append(pre, form{Kind: "flavor", F: m}, meth(m, "before"))
+					mixins = append(mixins, m)
+				}
+				base := nb + 1
+				pre = append(pre, form{Kind: "flavor", F: base, Comps: mixins})
+				if variant == 2 {
+					pre = append(pre, meth(base, "before"))
+				}
+				n := base + 2*nt
+				type top struct{ defs, late []form }
+				var tops []top
+				for t := 0; t < nt; t++ {
+					own, tf := base+1+2*t, base+2+2*t
+					var tp top
+					ms := []form{meth(own, "before"), meth(own, "primary")}
+					comps := []int{base, own}
+					if variant == 3 {
+						comps = []int{own, base}
+					}
+					tp.defs = append(tp.defs, form{Kind: "flavor", F: own})
+					if variant == 1 {
+						tp.late = ms
+					} else {
+						tp.defs = append(tp.defs, ms...)
+					}
+					tp.defs = append(tp.defs, form{Kind: "flavor", F: tf, Comps: comps})
+					tops = append(tops, tp)
+				}
+				build := func(order []int) []form {
+					h := append([]form{}, pre...)
+					for _, t := range order {
+						h = append(h, tops[t].defs...)
+					}
+					for _, t := range order {
+						h = append(h, tops[t].late...)
+					}
+					return h
+				}
+				fwd, rev := make([]int, nt), make([]int, nt)
+				for t := 0; t < nt; t++ {
+					fwd[t], rev[t] = t, nt-1-t
+				}
+				out = append(out, siblingProgram{forms: [][]form{build(fwd), build(rev)}, n: n,
+					label: fmt.Sprintf("siblings base-of-%d tops-%d variant-%d", nb, nt, variant)})
+			}
+		}
+	}
+	return out
 }
 
 // nontrivial: some flavor has a component and some method is defined on a flavor that another one inherits
@@ -1032,12 +1176,30 @@ func Run(ctx *common.Ctx) {
 			n = 1 + ctx.Rng.Intn(2)
 		}
 		nm := 3 + ctx.Rng.Intn(12)
+		if ctx.Rng.Chance(7) { // beyond the five flavors of the property text: wide hierarchies with siblings on one base
+			n = 6 + ctx.Rng.Intn(4)
+			nm = 8 + ctx.Rng.Intn(10)
+		}
 		prog := genProgram(ctx.Rng, n, nm, ctx)
 		ctx.Hist(fmt.Sprintf("flavors:%d", n))
 		canon := ""
 		for mode, label := range []string{"flavors-then-methods", "textual", "random", "flavors-then-methods-base-last"} {
 			emit(prog, sampleOrder(ctx.Rng, prog, mode), n, label, &canon)
 		}
+	}
+	// the systematic block: flavors built on one shared base (every base size 1..7 x 2 or 3 tops x 4 variants, two orders each)
+	for _, sp := range siblingPrograms() {
+		progNo++
+		rn.makeLists = map[int][][]int{}
+		canon := ""
+		for k, h := range sp.forms {
+			order := make([]int, len(h))
+			for i := range order {
+				order[i] = i
+			}
+			emit(h, order, sp.n, fmt.Sprintf("%s order-%d", sp.label, k+1), &canon)
+		}
+		ctx.Hist("sibling-block-programs")
 	}
 	// histories with forms that are not admissible: a method before its flavor, a flavor before one of its
 	// components, a flavor defined twice (the implementation must refuse them and stay unchanged)
